@@ -422,7 +422,8 @@ class StandardNormal1D(_AbstractDistribution):
             raise _CustomExceptions.InvalidCaseError()
 
     def generate(self, repeat=1, rng=_numpy.random.default_rng()) -> _numpy.ndarray:
-        return rng.normal(0.0, 1.0, (1, repeat))
+        # misfit is m^2 / (2 T): variance T
+        return rng.normal(0.0, self.temperature**0.5, (1, repeat))
 
 
 class Normal(_AbstractDistribution):
